@@ -32,6 +32,9 @@ type op struct {
 type config struct {
 	Init map[string]string `json:"initial_values"`
 	Gs   [][]op            `json:"goroutines"`
+	// Prelude: number of Define/Delete cycles on throw-away symbols the scope has already seen,
+	// one-at-a-time, before the goroutines start (long-history configurations only)
+	Prelude int `json:"prelude_define_delete_cycles,omitempty"`
 }
 
 var typePool = map[string]reflect.Type{"int64": reflect.TypeOf(int64(0)), "string": reflect.TypeOf(""), "bool": reflect.TypeOf(true)}
@@ -239,6 +242,16 @@ func run(cfg *config, choose func(step int, enabled []int, cur int) int) executi
 	for k, v := range cfg.Init {
 		shared.Define(k, v)
 	}
+	// the past of the scope: symbols that came and went before anything runs concurrently.
+	// Sequentially a Define followed by a Delete leaves no trace, so the model's initial state is cfg.Init.
+	for i := 0; i < cfg.Prelude; i++ {
+		k := fmt.Sprintf("p%d", i%9)
+		shared.Define(k, "past")
+		if i%5 == 4 {
+			shared.Delete("never-defined") // a Delete without effect belongs to a history too
+		}
+		shared.Delete(k)
+	}
 	n := len(cfg.Gs)
 	hists := make([][]porcupine.Operation, n)
 	res := verifsync.Run(n, func(id int) {
@@ -337,6 +350,378 @@ func genConfig(c *wk.Case, maxOps int) *config {
 	return cfg
 }
 
+// ---- long-history configurations ----
+//
+// The statement quantifies over histories: what a scope does with an operation may not depend on
+// how many operations it has already seen. A long-history configuration gives the scope a past
+// (cfg.Prelude Define/Delete cycles before the goroutines start) and lets 2-3 goroutines run tens
+// of operations each, most of them on symbols only that goroutine ever writes:
+//
+//	w<g>      a symbol g sets/defines and reads back,
+//	t<g>_<j>  short-lived symbols g defines and deletes again (the deletes are effective),
+//	f<g>_<n>  symbols g defines once and nobody deletes,
+//
+// plus reads of the other goroutines' symbols, operations on the contended symbol k1, symbol
+// listings and copies. The oracle is the same as for the short configurations (porcupine against
+// the sequential dictionary model, closed by a read of the final state); the ownership structure
+// only serves to name what went wrong in the signature.
+
+func longOwner(key string) int {
+	if len(key) >= 2 && (key[0] == 'w' || key[0] == 't' || key[0] == 'f') && key[1] >= '0' && key[1] <= '9' {
+		return int(key[1] - '0')
+	}
+	return -1
+}
+
+func genLongConfig(c *wk.Case) *config {
+	cfg := &config{Init: map[string]string{}}
+	ng := 2 + c.Rng.Intn(2)
+	lo, span := 45, 40
+	if ng == 3 {
+		lo, span = 32, 26
+	}
+	if c.Tier == "thorough" {
+		lo, span = lo*2, span*2
+	}
+	// the past: anything from none to a few hundred symbols that came and went
+	switch c.Rng.Intn(4) {
+	case 0:
+		cfg.Prelude = c.Rng.Intn(8)
+	case 1:
+		cfg.Prelude = c.Rng.Intn(70)
+	default:
+		cfg.Prelude = c.Rng.Intn(300)
+	}
+	if c.Rng.Intn(2) == 0 {
+		cfg.Init["k1"] = "init1"
+	}
+	for g := 0; g < ng; g++ {
+		if c.Rng.Intn(3) != 0 {
+			cfg.Init[fmt.Sprintf("w%d", g)] = fmt.Sprintf("init.w%d", g)
+		}
+	}
+	for g := 0; g < ng; g++ {
+		nops := lo + c.Rng.Intn(span)
+		w := fmt.Sprintf("w%d", g)
+		live := []string{} // short-lived symbols of g that g has defined and not yet deleted
+		fresh := 0
+		var ops []op
+		val := func(i int) string { return fmt.Sprintf("g%d.%d", g, i) }
+		others := func() string {
+			h := c.Rng.Intn(ng)
+			switch c.Rng.Intn(4) {
+			case 0:
+				return fmt.Sprintf("t%d_%d", h, c.Rng.Intn(4))
+			case 1:
+				return fmt.Sprintf("f%d_%d", h, c.Rng.Intn(3))
+			case 2:
+				return []string{"k1", "kp"}[c.Rng.Intn(2)]
+			}
+			return fmt.Sprintf("w%d", h)
+		}
+		for i := 0; i < nops; i++ {
+			var o op
+			r := c.Rng.Intn(24)
+			switch {
+			case r < 7 || (r < 13 && len(live) == 0):
+				k := fmt.Sprintf("t%d_%d", g, c.Rng.Intn(4))
+				o = op{Kind: "Define", Key: k, Val: val(i)}
+				found := false
+				for _, l := range live {
+					found = found || l == k
+				}
+				if !found {
+					live = append(live, k)
+				}
+			case r < 13:
+				j := c.Rng.Intn(len(live))
+				kind := "Delete"
+				if c.Rng.Intn(6) == 0 {
+					kind = "DeleteGlobal"
+				}
+				o = op{Kind: kind, Key: live[j]}
+				live = append(live[:j], live[j+1:]...)
+			case r < 15:
+				o = op{Kind: "Set", Key: w, Val: val(i)}
+			case r == 15:
+				o = op{Kind: "Define", Key: w, Val: val(i)}
+			case r < 18:
+				o = op{Kind: "Get", Key: w}
+			case r == 18:
+				if fresh < 5 {
+					o = op{Kind: "Define", Key: fmt.Sprintf("f%d_%d", g, fresh), Val: val(i)}
+					fresh++
+				} else {
+					o = op{Kind: "Get", Key: fmt.Sprintf("f%d_%d", g, c.Rng.Intn(fresh))}
+				}
+			case r < 21:
+				o = op{Kind: "Get", Key: others()}
+			case r == 21:
+				o = op{Kind: []string{"Define", "Set", "Delete"}[c.Rng.Intn(3)], Key: "k1"}
+				if o.Kind != "Delete" {
+					o.Val = val(i)
+				}
+			case r == 22:
+				o = op{Kind: "Symbols"}
+			default:
+				o = op{Kind: []string{"Copy", "DeepCopy", "String", "Get"}[c.Rng.Intn(4)]}
+				if o.Kind == "Get" {
+					o.Key = "never-defined"
+				}
+			}
+			ops = append(ops, o)
+		}
+		cfg.Gs = append(cfg.Gs, ops)
+	}
+	return cfg
+}
+
+// longAnomaly names what is wrong with a history porcupine rejected, using only the symbols that
+// a single goroutine writes: for those every one-at-a-time ordering consistent with that
+// goroutine's order fixes what the goroutine itself reads and what is left at the end.
+func longAnomaly(cfg *config, hist []porcupine.Operation) string {
+	final, haveFinal := mstate{}, false
+	per := make([][]porcupine.Operation, len(cfg.Gs))
+	for _, o := range hist {
+		if o.Input.(op).Kind == "Final" {
+			final, haveFinal = decode(o.Output.(string)), true
+		} else if o.ClientId < len(per) {
+			per[o.ClientId] = append(per[o.ClientId], o) // already in the goroutine's own order
+		}
+	}
+	for g, ops := range per {
+		own := map[string]string{} // symbol -> value, "" = not defined in the shared scope
+		known := map[string]bool{}
+		for k, v := range cfg.Init {
+			if longOwner(k) == g {
+				own[k], known[k] = v, true
+			}
+		}
+		for _, o := range ops {
+			in, out := o.Input.(op), o.Output.(string)
+			if longOwner(in.Key) != g {
+				continue
+			}
+			switch in.Kind {
+			case "Define":
+				if out == "ok" {
+					own[in.Key], known[in.Key] = in.Val, true
+				}
+			case "Set":
+				if v, def := own[in.Key]; def && v != "" {
+					if out != "ok" {
+						return "own-symbol-gone-at-set"
+					}
+					own[in.Key] = in.Val
+				} else if out == "ok" {
+					return "set-of-undefined-own-symbol-succeeds"
+				}
+			case "Delete", "DeleteGlobal":
+				own[in.Key], known[in.Key] = "", true
+			case "Get":
+				v := own[in.Key]
+				if v == "" && out != "err" {
+					return "own-deleted-or-undefined-symbol-read"
+				}
+				if v != "" && out != v {
+					return "own-write-not-read-back"
+				}
+			}
+		}
+		// listings and copies taken by g itself show g's symbols as g left them
+		own = map[string]string{}
+		for k, v := range cfg.Init {
+			if longOwner(k) == g {
+				own[k] = v
+			}
+		}
+		for _, o := range ops {
+			in, out := o.Input.(op), o.Output.(string)
+			switch in.Kind {
+			case "Define", "Set":
+				if longOwner(in.Key) == g && out == "ok" {
+					own[in.Key] = in.Val
+				}
+			case "Delete", "DeleteGlobal":
+				if longOwner(in.Key) == g {
+					delete(own, in.Key)
+				}
+			case "Symbols":
+				seen := map[string]bool{}
+				for _, k := range strings.Split(out, ",") {
+					seen[k] = true
+					if _, def := own[k]; !def && longOwner(k) == g {
+						return "own-deleted-symbol-listed"
+					}
+				}
+				for k := range own {
+					if !seen[k] {
+						return "own-symbol-not-listed"
+					}
+				}
+			case "Copy", "DeepCopy":
+				snap := decode(out)
+				for k, v := range snap.vals {
+					if _, def := own[k]; !def && longOwner(k) == g {
+						return "own-deleted-symbol-in-copy"
+					} else if def && own[k] != v {
+						return "own-write-not-in-copy"
+					}
+				}
+				for k := range own {
+					if _, there := snap.vals[k]; !there {
+						return "own-symbol-not-in-copy"
+					}
+				}
+			}
+		}
+		if haveFinal {
+			for k := range known {
+				fv, there := final.vals[k]
+				if own[k] == "" && there {
+					return "own-deleted-symbol-in-final-state"
+				}
+				if own[k] != "" && (!there || fv != own[k]) {
+					return "own-write-missing-in-final-state"
+				}
+			}
+		}
+	}
+	// what h reads of a symbol only g writes can only move forward through g's writes
+	// (every written value is unique)
+	for h, ops := range per {
+		last := map[string]int{}
+		for _, o := range ops {
+			in, out := o.Input.(op), o.Output.(string)
+			g := longOwner(in.Key)
+			if in.Kind != "Get" || g < 0 || g == h || g >= len(per) {
+				continue
+			}
+			if out == "err" {
+				continue // not defined (yet, or no longer): says nothing about the order of g's writes
+			}
+			pos, n := -1, 0
+			if v, ok := cfg.Init[in.Key]; ok && v == out {
+				pos = 0
+			}
+			for _, w := range per[g] {
+				wi := w.Input.(op)
+				if wi.Key == in.Key && (wi.Kind == "Define" || wi.Kind == "Set") {
+					n++
+					if w.Output.(string) == "ok" && wi.Val == out {
+						pos = n
+					}
+				}
+			}
+			if pos < 0 {
+				return "foreign-read-of-a-value-never-written"
+			}
+			if pos < last[in.Key] {
+				return "foreign-read-went-back"
+			}
+			if pos > last[in.Key] {
+				last[in.Key] = pos
+			}
+		}
+	}
+	return "other"
+}
+
+func runLong(c *wk.Case, verdicts map[string]porcupine.CheckResult) {
+	nRandom := 36
+	if c.Tier == "thorough" {
+		nRandom = 120
+	}
+	cfg := genLongConfig(c)
+	initState := encode(cfg.Init, map[string]string{})
+	m := model
+	m.Init = func() interface{} { return initState }
+	c.Begin(cfg)
+	c.Tag("config-long-history")
+	c.Tag("config-long-history-goroutines:" + fmt.Sprint(len(cfg.Gs)))
+	nd := 0
+	for _, g := range cfg.Gs {
+		for _, o := range g {
+			if o.Kind == "Delete" || o.Kind == "DeleteGlobal" {
+				nd++
+			}
+		}
+	}
+	c.Count("long_history_deletes_before_and_during", cfg.Prelude+nd)
+
+	judge := func(ex execution, sched []int) bool {
+		input := map[string]interface{}{"config": cfg, "schedule": sched, "history": describe(ex.hist)}
+		if len(ex.res.Panics) > 0 {
+			c.Violation("panic-in-env-operation:long-history", strings.Join(ex.res.Panics, "; "), input)
+			return false
+		}
+		if ex.res.Deadlock {
+			c.Violation("deadlock:long-history", "no goroutine enabled while some are unfinished: "+strings.Join(ex.res.Blocked, "; "), input)
+			return false
+		}
+		key := fmt.Sprintf("long%d#", c.Index) + describe(ex.hist)
+		c.Eval(key, true)
+		c.Events(len(ex.hist))
+		v, seen := verdicts[key]
+		if !seen {
+			v, _ = porcupine.CheckOperationsVerbose(m, ex.hist, 20*time.Second)
+			verdicts[key] = v
+			c.Count("distinct_histories_checked", 1)
+		}
+		switch v {
+		case porcupine.Illegal:
+			c.Violation("nonlinearizable:long-history:"+longAnomaly(cfg, ex.hist), fmt.Sprintf("after %d earlier Define/Delete cycles on the scope, no one-at-a-time ordering of the operations explains the results and the final state: %s", cfg.Prelude, describe(ex.hist)), input)
+			return false
+		case porcupine.Unknown:
+			c.Inconclusive("porcupine-timeout", key, input)
+		}
+		return true
+	}
+	schedOf := func(ex execution) []int {
+		s := make([]int, len(ex.res.Choices))
+		for i, ch := range ex.res.Choices {
+			s[i] = ch.Chosen
+		}
+		return s
+	}
+	// (a) every goroutine in one piece, in every rotation of the start order
+	for first := 0; first < len(cfg.Gs); first++ {
+		ex := run(cfg, func(step int, enabled []int, cur int) int {
+			if cur >= 0 && contains(enabled, cur) {
+				return cur
+			}
+			for d := 0; d < len(cfg.Gs); d++ {
+				if id := (first + d) % len(cfg.Gs); contains(enabled, id) {
+					return id
+				}
+			}
+			return enabled[0]
+		})
+		if !judge(ex, schedOf(ex)) {
+			return
+		}
+	}
+	// (b) random schedules; the chance of a switch at a scheduling point differs per schedule, from
+	// one switch in 64 points (a handful of preemptions in the whole execution) to every other point
+	for i := 0; i < nRandom; i++ {
+		stick := []int{2, 3, 4, 6, 8, 16, 32, 64}[c.Rng.Intn(8)]
+		ex := run(cfg, func(step int, enabled []int, cur int) int {
+			if cur >= 0 && contains(enabled, cur) && c.Rng.Intn(stick) != 0 {
+				return cur
+			}
+			return enabled[c.Rng.Intn(len(enabled))]
+		})
+		if !judge(ex, schedOf(ex)) {
+			return
+		}
+	}
+	c.Count("schedules_random_long_history", nRandom)
+	if c.WantSample() {
+		ex := run(cfg, func(step int, enabled []int, cur int) int { return enabled[c.Rng.Intn(len(enabled))] })
+		c.Sample(map[string]interface{}{"config": cfg, "one_history": describe(ex.hist)})
+	}
+}
+
 func main() {
 	verdicts := map[string]porcupine.CheckResult{}
 	wk.Register(&wk.Engine{
@@ -346,6 +731,11 @@ func main() {
 			maxOps, maxSched, nRandom := 3, 1500, 60
 			if c.Tier == "thorough" {
 				maxOps, maxSched, nRandom = 4, 12000, 300
+			}
+			if c.Index%8 == 7 {
+				// one case in eight is a long-history configuration (runLong below)
+				runLong(c, verdicts)
+				return
 			}
 			cfg := genConfig(c, maxOps)
 			kinds := kindsOf(cfg)
